@@ -4,7 +4,7 @@ package log
 //verif:witness H_C18_long end
 //verif:witness H_C18_registry registered rejected
 //verif:bound C18 quick isValidTag vs reference recogniser on every byte string of length 0..7; structured strings of total length 34..38 (1..5 segments, optional leading underscore, one arbitrary byte at 5 positions); registry harness on every byte string of length 0..5
-//verif:bound C18 thorough every byte string of length 0..9; structured strings of total length 34..38; registry harness on length 0..6
+//verif:bound C18 thorough every byte string of length 0..11; structured strings of total length 34..38; registry harness on length 0..6
 //verif:assume C18 lengths between the exhaustive bound and 34 with arbitrary underscore placement are outside the claim (no branch of isValidTag distinguishes them; stated, not proved)
 
 // vSpecTag: the documented tag language, written from the property statement.
@@ -39,7 +39,7 @@ func vSpecTag(s string) bool {
 func H_C18_valid() {
 	maxN := 7
 	if vTier() > 0 {
-		maxN = 9
+		maxN = 11
 	}
 	n := vChoose("len", maxN+1)
 	s := vString("tag", n)
